@@ -588,6 +588,16 @@ fn run_inner(thorough: bool, only: Option<&str>, scale_only: bool) -> GridOut {
             }
         }
     }
+    if std::env::var_os("GRID_LIST").is_some() {
+        // the driver asks for the case names only (crash isolation)
+        for c in &cfgs {
+            println!("{}", c.id());
+        }
+        for c in &scale {
+            println!("{}", c.0);
+        }
+        return GridOut { evaluations: 0, nontrivial: 0, rule: String::new(), samples: vec![], violations: vec![], extra: J::obj() };
+    }
     let next = AtomicUsize::new(0);
     let viol: Mutex<Vec<(usize, String)>> = Mutex::new(vec![]);
     let stats: Mutex<Stats> = Mutex::new(Stats::default());
